@@ -42,7 +42,7 @@ func addLoggers(t *rapid.T, w *chain.World) []string {
 }
 
 func genC13(t *rapid.T) c13Case {
-	cfg := worldCfg{}
+	cfg := worldCfg{ModAddrs: true}
 	w := genEvmWorld(t, cfg)
 	loggers := addLoggers(t, &w)
 	if rapid.IntRange(0, 5).Draw(t, "smallblock") == 5 {
